@@ -317,11 +317,15 @@ type storedFailure struct {
 	class  uint16
 	cd     bool
 	scope  netip.Prefix
+	// expired: the backoff ended (`pipe fexp`): retained as history, no longer an answer
+	expired bool
 }
 
 type storedCut struct {
 	labels [][]byte
 	class  uint16
+	// expired: `pipe cexp` moved the expiry into the past: may never be served again
+	expired bool
 }
 
 // ---------------------------------------------------------------- pipeline state
@@ -976,6 +980,8 @@ func judge(entry string, out string, r reqSpec, hasECS bool) string {
 		switch {
 		case c == nil:
 			return "FAIL sig=" + entry + "/cut/purged-or-unknown-cut"
+		case c.expired:
+			return "FAIL sig=" + entry + "/cut/expired-cut-served"
 		case !oIsSuffix(c.labels, cur):
 			return "FAIL sig=" + entry + "/cut/name-not-below-denied-name"
 		case c.class != r.id.class:
@@ -988,6 +994,9 @@ func judge(entry string, out string, r reqSpec, hasECS bool) string {
 		return "ok"
 	case out == "fail":
 		for _, f := range failures {
+			if f.expired {
+				continue
+			}
 			if f.zone {
 				if oIsSuffix(f.labels, reqLabels) && f.class == r.id.class {
 					return "ok"
@@ -1012,6 +1021,9 @@ func judge(entry string, out string, r reqSpec, hasECS bool) string {
 					}
 					nextFrontier = append(nextFrontier, e.alias)
 					for _, f := range failures {
+						if f.expired {
+							continue
+						}
 						if f.zone && oIsSuffix(f.labels, e.alias) && f.class == r.id.class {
 							return "ok"
 						}
@@ -1737,6 +1749,26 @@ func execPipe(f []string) vlib.Res {
 			mcache.VerifC03CutAlias(store(), h, id.n.pres, id.class)
 		}
 		return vlib.Res{Impl: "ok wire=" + vlib.B(wireOK)}
+	case "cexp": // pipe cexp <name,0,class>   the cut stored for exactly this name expires (stays in the maps)
+		id := parseIdent(f[2])
+		if !mcache.VerifC03CutExpire(store(), id.n.pres, id.class) {
+			return vlib.Res{Impl: "absent"}
+		}
+		ls, _ := id.n.labels()
+		for _, c := range cuts {
+			if c.class == id.class && oLabelsFoldEq(c.labels, ls) {
+				c.expired = true
+			}
+		}
+		return vlib.Res{Impl: "ok"}
+	case "fexp": // pipe fexp <id>   the backoff of failure state <id> ends (the state is retained as history)
+		if mcache.VerifC03FailureExpire(pc, f[2]) == 0 {
+			return vlib.Res{Impl: "absent"}
+		}
+		if sf := failures[vlib.Atoi(f[2])]; sf != nil {
+			sf.expired = true
+		}
+		return vlib.Res{Impl: "ok"}
 	case "get": // pipe get <msg|wire|store> <ident(name,t,c,cd)> <client scope|-> [tcp|do|tcp+do]
 		r := reqSpec{id: parseIdent(f[3]), client: parseScope(f[4])}
 		fl := ""
@@ -1903,6 +1935,8 @@ func execPipe(f []string) vlib.Res {
 		switch {
 		case sf == nil:
 			or = "FAIL sig=pipe/fget/unknown-failure"
+		case sf.expired:
+			or = "FAIL sig=pipe/fget/expired-failure-served"
 		case sf.zone != (kind == "z"):
 			or = "FAIL sig=pipe/fget/kind-confusion"
 		case sf.zone && !(oIsSuffix(sf.labels, rl) && sf.class == id.class):
@@ -1928,6 +1962,8 @@ func execPipe(f []string) vlib.Res {
 		or := "ok"
 		if c == nil || !oIsSuffix(c.labels, rl) || c.class != id.class {
 			or = "FAIL sig=pipe/cget/cut-not-covering-the-name"
+		} else if c.expired {
+			or = "FAIL sig=pipe/cget/expired-cut-served"
 		}
 		return vlib.Res{Impl: fmt.Sprintf("cut %d", serial), Oracle: or, Tags: "nt"}
 	}
